@@ -28,7 +28,7 @@ PROPS = {
         ]),
     'C13': dict(
         file='Props/C13.v',
-        streams=[('c13-eval', 'pure'), ('c13-swap', 'pure')],
+        streams=[('c13-eval', 'pure'), ('c13-swap', 'pure'), ('c13-wallet', 'tie')],
         assumptions=[
             "symbolic SHA-256: a preimage handle opens exactly the lock carrying the same handle (collision resistance)",
             "symbolic Schnorr as for C12",
